@@ -152,17 +152,21 @@ theorem diagonalizeForm_spec (hr : IsSqrt r) (B U : Matrix (Fin n) (Fin n) K) (e
       simp only [if_true] at hs ⊢
       exact (minkowskiKey_le_iff eigs hnz _ _).1 hs
 
-/-- `svd_kernel` / `utils.kernel` under the SVD contract: the returned columns are annihilated
-by the matrix, orthonormal, and there are `kernel_dim = max(n−m,0) + #{s < tol}` of them -/
+/-- `svd_kernel` / `utils.kernel` under the SVD contract (`A = u Σ vh`, `u uᵀ = 1`, `vh vhᵀ = 1`,
+`s` non-negative and descending with `len(s) = min(m,n)`; exact arithmetic: a singular value is
+below the tolerance iff it is 0): the returned columns are annihilated by the matrix,
+orthonormal, and there are exactly `kernel_dim = n − rank A` of them -/
 theorem svdKernel_spec {m : ℕ} (tol : K) (s : List K) (A : Matrix (Fin m) (Fin n) K) (U : Matrix (Fin m) (Fin m) K)
-    (Sg : Matrix (Fin m) (Fin n) K) (Vh : Matrix (Fin n) (Fin n) K)
-    (hA : A = U * Sg * Vh) (hV : Vh * Vhᵀ = 1)
-    (hz : ∀ (i : Fin n), n - svdKernelDim tol m n s ≤ i.val → ∀ a, Sg a i = 0) :
+    (Vh : Matrix (Fin n) (Fin n) K)
+    (hA : A = U * sigmaMat m s * Vh) (hU : U * Uᵀ = 1) (hV : Vh * Vhᵀ = 1)
+    (hlen : s.length = min m n) (hs : s.Pairwise (fun a b => b ≤ a)) (hn : ∀ x ∈ s, 0 ≤ x)
+    (hex : ∀ x ∈ s, x < tol ↔ x = 0) :
+    svdKernelDim tol m n s = n - A.rank ∧
     (∀ v ∈ svdKernelRows tol m s Vh, A *ᵥ v = 0) ∧
     (∀ v ∈ svdKernelRows tol m s Vh, dot v v = 1) ∧
     (svdKernelRows tol m s Vh).Pairwise (fun v w => dot v w = 0) ∧
-    (svdKernelRows tol m s Vh).length = min (svdKernelDim tol m n s) n :=
-  svdKernelRows_spec tol s A U Sg Vh hA hV hz
+    (svdKernelRows tol m s Vh).length = n - A.rank :=
+  svdKernel_full tol s A U Vh hA hU hV hlen hs hn hex
 
 /-- `sphere_through` for `d+1` points of `K^d` in general position (`t_pts` invertible): every
 point is at distance `radius` from `center` (`radius ≥ 0`, `radius² = ‖p_i − center‖²`) -/
@@ -226,6 +230,11 @@ example : (1 : Matrix (Fin 2) (Fin 2) ℚ)ᵀ * Matrix.diagonal ![2, -3] * 1 = M
     ∀ i, (![2, -3] : Fin 2 → ℚ) i ≠ 0 := by
   refine ⟨by simp, fun i => ?_⟩
   fin_cases i <;> simp
+
+/-- an SVD satisfying the contract with a non-trivial kernel: `A = diag(3, 0)`, `u = vh = 1`, `s = [3, 0]` -/
+example : ([3, 0] : List ℚ).Pairwise (fun a b => b ≤ a) ∧ (∀ x ∈ ([3, 0] : List ℚ), 0 ≤ x) ∧
+    (∀ x ∈ ([3, 0] : List ℚ), x < 1 / 100000000 ↔ x = 0) := by
+  refine ⟨by simp, ?_, ?_⟩ <;> intro x hx <;> simp at hx <;> rcases hx with rfl | rfl <;> norm_num
 
 /-- three points of the plane in general position -/
 example : IsUnit (sphereT (fun i => (![![0, 0], ![1, 0], ![0, 1]] : Fin 3 → Fin 2 → ℚ) i)).det := by
